@@ -22,7 +22,8 @@ EXPLANATION = (
     'cascade x ^= x >> s whose shift set is {1,2,4,...} up to at least half the 64-bit integer width (or a loop '
     'that shifts until the mask is zero) - the cascade {8,4,2,1} is only correct below 2^16. C15.c: binary->Gray is '
     'n ^ (n >> 1); bit errors are counted as the sum of the popcount of the xor of the two arguments; popcount is '
-    'the shift-and-test loop. Not decided: adjacency of nearest neighbours as geometry, values of the conversions.')
+    'the shift-and-test loop. Not decided: adjacency of nearest neighbours as geometry, values of the conversions.'
+    ' General rules also applied here (see DESIGN 10.5): input immutability (no in-place modification of an array argument, alias- and view-aware).')
 
 GRAY_FUNCS = {'binary2gray', 'gray2binary'}
 
